@@ -38,7 +38,8 @@ Record Rchan (kv : kvs) (s : aspec) (c : N) (rows : list row) : Prop := {
                         <-> exists r, In r rows /\ r_seq r = q /\ r_uid r = u /\ u <> []
                                       /\ N.land (r_flags r) syncOnceFlag = 0;
   rc_idem_sound : forall n u q i h, kget (KyIdem c n u) kv = Some (VIdem q i h) ->
-                    exists r, In r rows /\ r_seq r = q /\ r_cno r = n /\ r_uid r = u /\ r_id r = i /\ r_hash r = h;
+                    exists r, In r rows /\ r_seq r = q /\ r_cno r = n /\ r_uid r = u /\ r_id r = i /\ r_hash r = h
+                              /\ n <> [] /\ u <> [];
   rc_idem_complete : forall r, In r rows -> r_uid r <> [] -> r_cno r <> [] ->
                     pair_tainted (as_log s c) (r_uid r) (r_cno r) = false ->
                     kget (KyIdem c (r_cno r) (r_uid r)) kv = Some (VIdem (r_seq r) (r_id r) (r_hash r));
